@@ -51,6 +51,15 @@ OwnerOnly(r, holder, signer, ok)              == r.own = "id" /\ signer # holder
 VictimUntouched(holder, signer, vpre, vpost)  == signer # holder => vpre = vpost
 RejectedChangesNothing(ok, dpre, dpost) == ~ok => dpre = dpost
 
+(* Opening messages (create a vault / locker / lend / borrow / order / limit bid) name no existing position: whoever sends
+   them, no existing position or balance of anybody else may change. They are run by third parties, once on the state as
+   it is and once after an OLDER position of the same kind was removed by its owner (a hole in the id sequence while newer
+   positions are live), and the whole owner matrix is run again on a state built that way. *)
+OpenMsgs == {"vault.MsgCreate", "locker.MsgCreateLocker", "lend.Lend", "lend.BorrowAlternate", "liquidity.LimitOrder",
+             "liquidity.MMOrder", "auctionsV2.MsgDepositLimitBid"}
+OpenSigners == {"newbie", "lp"}
+OpenVictimsUntouched(vpre, vpost) == vpre = vpost          \* combined view of every holder (none of them signs)
+
 (* ------------------------------------ (b) privileged matrix ------------------------------------ *)
 (* The 20 custom message variants and what they do (statement: "whitelists assets, sets risk or collector
    parameters, mints or burns governance tokens, or pays out collector funds").
@@ -92,7 +101,16 @@ PrivilegedElsewhere(chain, sender, ok) == chain \notin MainTest /\ ok => sender 
 (* as coded: the guard exists only for the two known chain ids (fail-open elsewhere — named deviation) *)
 ImplPrivOk(v, chain, sender) == chain \notin MainTest \/ sender = (IF Variant(v).idx = 0 THEN "d0" ELSE "d1")
 
-KillSenders == {"admin", "user", "module", "contract"}
-KillOnlyAdmin(sender, ok) == ok => sender = "admin"
-ImplKillOk(sender) == sender = "admin"
+(* The address-like fields INSIDE the payload of a custom message (mint recipient, account to burn from, payout address) are
+   chosen by the caller; authorisation must depend on the calling contract only. pay = whom the payload names. *)
+PayloadVariants == {"MsgBurnGovTokensForApp", "MsgFoundationEmission", "MsgRebaseMint", "MsgGetSurplusFund"}
+PaysOf(v) == IF v \in PayloadVariants THEN {"caller", "designated", "third"} ELSE {"na"}
+
+(* Kill switch: "accepted only from the configured admin addresses". The configured list is a chain parameter that
+   governance can change; adm = state of the list: the fixture's admin, rotated to another address, or empty. *)
+AdminStates == {"configured", "rotated", "empty"}
+KillSenders == {"admin", "newadmin", "default", "user", "module", "contract"}    \* default = the address hard-coded as genesis default
+ConfiguredAdmins(adm) == CASE adm = "configured" -> {"admin"} [] adm = "rotated" -> {"newadmin"} [] adm = "empty" -> {}
+KillOnlyAdmin(adm, sender, ok) == ok => sender \in ConfiguredAdmins(adm)
+ImplKillOk(adm, sender) == sender \in ConfiguredAdmins(adm)
 =============================================================================
